@@ -1,10 +1,11 @@
 (* Extraction of the executable model for C19, used only by the correspondence check.
    ExtrOcamlBasic only; N, positive, nat stay as extracted datatypes; no Extract Constant. *)
 From Coq Require Import Extraction ExtrOcamlBasic.
-From Iodine Require Import Md5 Login LoginGlue.
+From Iodine Require Import Md5 Login LoginGlue Startup.
 Extraction Language OCaml.
 Set Extraction Optimize.
 Extraction "extracted/model_c19.ml" Md5.md5 Login.login_block Login.login_calculate Login.login_out
   Login.raw_login_up Login.raw_login_down Login.raw_server Login.raw_client_accepts
   LoginGlue.srv_version_reply LoginGlue.srv_version_matches LoginGlue.srv_version_nak LoginGlue.srv_dns_login LoginGlue.srv_login_accepts LoginGlue.u32_of_Z LoginGlue.int_of_u32
-  LoginGlue.cli_version LoginGlue.cli_payload_defined LoginGlue.cli_dns_login LoginGlue.cli_raw_login LoginGlue.cli_raw_accepts.
+  LoginGlue.cli_version LoginGlue.cli_payload_defined LoginGlue.cli_dns_login LoginGlue.cli_raw_login LoginGlue.cli_raw_accepts
+  Startup.pw_buffer Startup.prompt_line Startup.startup_password Startup.clamp_maxlen Startup.startup_maxlen.
